@@ -38,6 +38,8 @@ var pkgDirs = map[string]string{
 	"fasthttp":      ".",
 	"fasthttputil":  "fasthttputil",
 	"fasthttpproxy": "fasthttpproxy",
+	"prefork":       "prefork",
+	"fasthttpadaptor": "fasthttpadaptor",
 	"stackless":     "stackless",
 }
 
@@ -150,6 +152,7 @@ func DefaultInitAllow(path string) bool {
 	switch path {
 	case "github.com/valyala/fasthttp", "github.com/valyala/fasthttp/fasthttputil",
 		"github.com/valyala/fasthttp/stackless", "github.com/valyala/fasthttp/fasthttpproxy",
+		"github.com/valyala/fasthttp/prefork", "github.com/valyala/fasthttp/fasthttpadaptor",
 		"github.com/valyala/bytebufferpool",
 		"errors", "io", "bufio", "bytes", "strings", "strconv", "time", "sync", "unicode/utf8",
 		"sort", "slices", "net/netip", "net/textproto", "net/url", "html", "path", "path/filepath",
